@@ -295,6 +295,107 @@ func TestC16Plain(t *testing.T) {
 	})
 }
 
+// ---- trips sharing a train id (one vehicle claimed by several trips): the per-trip statements still hold
+
+var c16SharedRec = vt.NewRecorder("C16", "TestC16Shared",
+	"feeds of 2-5 NYCT trip updates (and some vehicle positions) in which several assigned trips carry the SAME train id - outside the conflict-free class of the reference transcription, so only the per-trip statements are checked directly: "+
+		"every surviving NYCT trip has the direction of its descriptor, the start time of its trip id, its tracks, and, when assigned, a vehicle whose id is its train id. Non-trivial = >=2 assigned trips share a train id")
+
+func init() { registerReplay("C16", "TestC16Shared", checkC16Shared) }
+
+func checkC16Shared(c CaseC16) error {
+	if c.Msg == nil {
+		return vt.Failf("malformed case")
+	}
+	r, err := gtfs.ParseRealtime(c.Msg.Marshal(), nyctOpts(c.Opts, c.Zone))
+	if err != nil {
+		return vt.Failf("ParseRealtime rejected a well-formed message: %v", err)
+	}
+	model, _ := rgen.ApplyNyctTrips(c.Msg, c.Opts)
+	byKey := map[string]*gtfs.Trip{}
+	for i := range r.Trips {
+		byKey[rgen.Normalize1Trip(&r.Trips[i]).ID.Key()] = &r.Trips[i]
+	}
+	loc := rgen.LocOrUTC(c.Zone)
+	for ei := range model.Entities {
+		tu := model.Entities[ei].TU
+		if tu == nil {
+			continue
+		}
+		want := rgen.ExpectTripID(&tu.Trip, loc)
+		got := byKey[want.Key()]
+		if got == nil {
+			return vt.Failf("options %+v: trip %s (entity %s) is missing from the result", c.Opts, want.Key(), model.Entities[ei].ID)
+		}
+		if tu.Vehicle != nil && tu.Vehicle.ID != nil && *tu.Vehicle.ID != "" {
+			if got.Vehicle == nil || got.Vehicle.GetID().ID != *tu.Vehicle.ID {
+				have := "<nil>"
+				if got.Vehicle != nil {
+					have = got.Vehicle.GetID().ID
+				}
+				return vt.FailSig("assigned-trip-vehicle", "options %+v: assigned trip %q must be linked to a vehicle whose id is its train id %q; got %s", c.Opts, want.ID, *tu.Vehicle.ID, have)
+			}
+		}
+		if len(got.StopTimeUpdates) != len(tu.STUs) {
+			return vt.Failf("trip %q: %d stop time updates, want %d", want.ID, len(got.StopTimeUpdates), len(tu.STUs))
+		}
+		for si := range tu.STUs {
+			wt := rgen.NyctTrack(&tu.STUs[si])
+			gt := got.StopTimeUpdates[si].NyctTrack
+			if (wt == nil) != (gt == nil) || (wt != nil && *wt != *gt) {
+				return vt.Failf("trip %q stop time update %d: track %v, want %v", want.ID, si, gt, wt)
+			}
+		}
+	}
+	return nil
+}
+
+func TestC16Shared(t *testing.T) {
+	rapid.Check(t, func(t *rapid.T) {
+		zone := rapid.SampledFrom([]string{"", "America/New_York"}).Draw(t, "zone")
+		m, _, _, _ := genNyctMsg(t, zone)
+		// make several assigned trips share a train id
+		var assigned []*rgen.TripUpdate
+		for i := range m.Entities {
+			if tu := m.Entities[i].TU; tu != nil && tu.Trip.Nyct != nil {
+				if rapid.IntRange(0, 2).Draw(t, "forceAssigned") != 0 {
+					tu.Trip.Nyct.IsAssigned = rgen.P(true)
+					if tu.Trip.Nyct.TrainID == nil || *tu.Trip.Nyct.TrainID == "" {
+						tu.Trip.Nyct.TrainID = rgen.P(fmt.Sprintf("train-%d", i)) // assigned trips carry a train id (empty ones are outside the domain)
+					}
+				}
+				if tu.Trip.Nyct.IsAssigned != nil && *tu.Trip.Nyct.IsAssigned {
+					assigned = append(assigned, tu)
+				}
+			}
+		}
+		shared := 0
+		for i, tu := range assigned {
+			if i > 0 && rapid.Bool().Draw(t, "shareTrain") {
+				tu.Trip.Nyct.TrainID = assigned[0].Trip.Nyct.TrainID
+				shared++
+			}
+		}
+		// vehicle positions of NYCT trips must describe the same (now possibly changed) descriptor as their trip update
+		for i := range m.Entities {
+			if vp := m.Entities[i].VP; vp != nil && vp.Trip != nil && vp.Trip.Nyct != nil {
+				for j := range m.Entities {
+					if tu := m.Entities[j].TU; tu != nil && tu.Trip.TripID != nil && vp.Trip.TripID != nil && *tu.Trip.TripID == *vp.Trip.TripID {
+						d := tu.Trip
+						vp.Trip = &d
+					}
+				}
+			}
+		}
+		c := CaseC16{Zone: zone, Msg: m, Opts: rgen.NyctTripsOpts{FilterStale: rapid.Bool().Draw(t, "filter"), PreserveM: rapid.Bool().Draw(t, "preserveM")}}
+		c16SharedRec.Eval(fmt.Sprintf("shared-train-ids=%d", min(shared, 3)))
+		if shared > 0 {
+			c16SharedRec.NontrivialCase(vt.Fingerprint(c), func() any { return c })
+		}
+		vt.Run(t, c16SharedRec, c, checkC16Shared)
+	})
+}
+
 func TestC16Origin(t *testing.T) {
 	if os.Getenv("VERIF_PROP") == "" {
 		t.Skip("driver only")
